@@ -235,7 +235,10 @@ SF_NAMES = [("src/alpha.rs", "lib/deep/other.rs"), ("Makefile", "sub/Makefile"),
 SF_ARGS = ["--no-gitconfig", "--true-color", "always", "--dark", "--width", "120", "--zero-style", 'syntax "#010203"']
 
 
-def showfile_part(tier, V):
+def showfile_part(tier, V, pid=None, callers=("showfile",)):
+    """callers: which of the three callers are replayed - C15 takes the file view, C04 the two callers without a file name
+    (there the text must pass through)."""
+    pid = pid or PID
     mc = tlc.run_tlc("MC_ShowFile", cfg="MC_ShowFile", workers=2, coverage=False, timeout=600)
     tlc.require_ok(mc, "MC_ShowFile")
     if mc.violated:
@@ -246,13 +249,13 @@ def showfile_part(tier, V):
     gen = tlc.run_tlc("MC_ShowFile", cfg="MC_ShowFile_gen" if tier == "quick" else "MC_ShowFile_gen_thorough", workers=1, coverage=False,
                       timeout=900)
     tlc.require_ok(gen, "MC_ShowFile generation")
-    seqs = [v for t, v in gen.printed if t == "REPLAY"]
-    if len(seqs) < 300:
+    seqs = [v for t, v in gen.printed if t == "REPLAY" and v["caller"] in callers]
+    if len(seqs) < 100:
         raise core.ToolError(f"only {len(seqs)} class sequences from MC_ShowFile")
     binpath = os.path.join(core.FIXBIN, "bin")
     if not os.path.exists(os.path.join(binpath, "git")):
         raise core.ToolError("stub git missing: run ./setup.sh")
-    sdir = os.path.join(core.scratch(), "c15sf")
+    sdir = os.path.join(core.scratch(), "sf" + pid)
     os.makedirs(sdir, exist_ok=True)
     pools = {"code": SF_CODE, "inner": SF_INNER, "marker": SF_MARKER}
     jobs = []
@@ -330,7 +333,7 @@ def showfile_part(tier, V):
         else:
             V.violation(f"showfile:theme:{texts}:{names[0]}", f"git show HEAD:{names[0]}: the rendering of {texts!r} under a theme differs from the "
                         f"one without highlighting in more than foreground colours (cell {f['at']})", {"lines": texts, "name": names[0]})
-    log(f"[{PID}] git show rev:path: {len(events)} runs judged by TLC (Trace_ShowFile), {len(failed)} rejected, {len(drifts)} drift; "
+    log(f"[{pid}] git show rev:path: {len(events)} runs judged by TLC (Trace_ShowFile), {len(failed)} rejected, {len(drifts)} drift; "
         f"{len(rel)} relational judgements, {len(rfailed)} rejected")
     return {"showfile_runs": len(events), "showfile_relational": len(rel), "showfile_design_states": mc.distinct}
 
